@@ -4,6 +4,7 @@ import (
 	"fmt"
 	"go/constant"
 	"go/token"
+	"go/types"
 	"sort"
 	"strings"
 
@@ -82,25 +83,34 @@ func CutReachFrom(p *Prog, fn *ssa.Function, start *ssa.BasicBlock, g Guard, avo
 		env    map[*ssa.Phi]ssa.Value
 		parent int
 		via    string
+		chain  []*ssa.Call               // calls (in enclosing frames) the traversal is inside of
+		idx    int                       // instruction index to resume the block at
+		rets   map[*ssa.Call]*ssa.Return // helper calls completed on this path -> the return taken
 	}
 	var nodes []node
 	seen := map[cutState]bool{}
-	push := func(b *ssa.BasicBlock, env map[*ssa.Phi]ssa.Value, parent int, via string) {
-		st := cutState{b, encodeEnv(env)}
+	pushAt := func(b *ssa.BasicBlock, env map[*ssa.Phi]ssa.Value, parent int, via string, chain []*ssa.Call, idx int, rets map[*ssa.Call]*ssa.Return) {
+		st := cutState{b, encodeEnv(env) + encodeFrames(chain, idx, rets)}
 		if seen[st] {
 			return
 		}
 		seen[st] = true
-		nodes = append(nodes, node{st, env, parent, via})
+		nodes = append(nodes, node{st, env, parent, via, chain, idx, rets})
 	}
 	if start == nil {
 		start = fn.Blocks[0]
 	}
-	push(start, map[*ssa.Phi]ssa.Value{}, -1, "start")
+	pushAt(start, map[*ssa.Phi]ssa.Value{}, -1, "start", nil, 0, nil)
 	for qi := 0; qi < len(nodes); qi++ {
 		n := nodes[qi]
 		b := n.st.block
-		if isSink[b] && !(qi == 0 && start != fn.Blocks[0] && skipStartSink) {
+		push := func(sb *ssa.BasicBlock, env map[*ssa.Phi]ssa.Value, parent int, via string) {
+			pushAt(sb, env, parent, via, n.chain, 0, n.rets)
+		}
+		stop := false
+		var result *CutResult
+		withFrames(n.chain, n.rets, func() {
+		if n.idx == 0 && isSink[b] && !(qi == 0 && start != fn.Blocks[0] && skipStartSink) {
 			res.Reachable = true
 			// reconstruct
 			var path []string
@@ -112,7 +122,50 @@ func CutReachFrom(p *Prog, fn *ssa.Function, start *ssa.BasicBlock, g Guard, avo
 				path[i], path[j] = path[j], path[i]
 			}
 			res.Witness = path
-			return res
+			result = &res
+			return
+		}
+		// helper calls in this block: continue inside the helper, with its
+		// parameters standing for the arguments; the block resumes after the
+		// call when the helper returns
+		if nestedLoopProbe == 0 || true {
+			for k := n.idx; k < len(b.Instrs); k++ {
+				call, isCall := b.Instrs[k].(*ssa.Call)
+				if !isCall {
+					continue
+				}
+				h := descendable(call, fn, n.chain)
+				if h == nil {
+					continue
+				}
+				entry := h.Blocks[0]
+				if avoid[entry] || (AvoidHook != nil && AvoidHook(entry)) {
+					res.Avoided++
+				} else {
+					pushAt(entry, n.env, qi, "call "+h.Name(), append(append([]*ssa.Call{}, n.chain...), call), 0, n.rets)
+				}
+				stop = true
+				return
+			}
+		}
+		// return from a helper: resume the caller after the call, remembering which return was taken
+		if ret, isRet := b.Instrs[len(b.Instrs)-1].(*ssa.Return); isRet && len(n.chain) > 0 {
+			call := n.chain[len(n.chain)-1]
+			cb := call.Block()
+			ci := 0
+			for k, in := range cb.Instrs {
+				if in == ssa.Instruction(call) {
+					ci = k
+				}
+			}
+			rets := map[*ssa.Call]*ssa.Return{}
+			for k, v := range n.rets {
+				rets[k] = v
+			}
+			rets[call] = ret
+			pushAt(cb, n.env, qi, "return from "+b.Parent().Name(), n.chain[:len(n.chain)-1], ci+1, rets)
+			stop = true
+			return
 		}
 		succs := b.Succs
 		allowed := make([]bool, len(succs))
@@ -157,12 +210,12 @@ func CutReachFrom(p *Prog, fn *ssa.Function, start *ssa.BasicBlock, g Guard, avo
 				done = true
 				probe := func() {
 					nestedLoopProbe++
-					inner := CutReachFrom(p, fn, succs[0], g, avoid)
+					inner := CutReachFrom(p, b.Parent(), succs[0], g, avoid)
 					nestedLoopProbe--
 					completes := false
 					for e := range inner.Edges {
 						if e[1] == b.Index && e[0] != b.Index {
-							if pb := fn.Blocks[e[0]]; b.Dominates(pb) {
+							if pb := b.Parent().Blocks[e[0]]; b.Dominates(pb) {
 								completes = true
 							}
 						}
@@ -198,7 +251,7 @@ func CutReachFrom(p *Prog, fn *ssa.Function, start *ssa.BasicBlock, g Guard, avo
 				res.Avoided++
 				continue
 			}
-			if len(sinks) == 0 {
+			if len(sinks) == 0 && len(n.chain) == 0 {
 				if res.Edges == nil {
 					res.Edges = map[[2]int]bool{}
 				}
@@ -252,6 +305,11 @@ func CutReachFrom(p *Prog, fn *ssa.Function, start *ssa.BasicBlock, g Guard, avo
 				env[phi] = op
 			}
 			push(s, env, qi, via[i])
+		}
+		})
+		_ = stop
+		if result != nil {
+			return *result
 		}
 	}
 	return res
@@ -451,6 +509,27 @@ func evalCond(c ssa.Value, env map[*ssa.Phi]ssa.Value) (val, known bool) {
 			return false, false
 		}
 		l, r := resolve(x.X, env), resolve(x.Y, env)
+		// the error result of a helper that was traversed on this path: the
+		// return that was taken says whether it is nil
+		for _, side := range []*ssa.Value{&l, &r} {
+			if op, ret, ok := boundResult(*side); ok {
+				other := r
+				if side == &r {
+					other = l
+				}
+				if IsNilConst(other) {
+					switch ValueErrKind(op, ret.Block()) {
+					case ErrNilConst:
+						return x.Op == token.EQL, true
+					case ErrNonNil:
+						return x.Op == token.NEQ, true
+					}
+				}
+				if c, isConst := resolve(op, env).(*ssa.Const); isConst {
+					*side = c
+				}
+			}
+		}
 		if rv, ok := RowValue(l); ok {
 			l = rv
 		}
@@ -994,3 +1073,157 @@ func literalRangeHeader(b *ssa.BasicBlock) bool {
 // may consult the current row binding (an effect that concerns one row of a
 // literal-table loop only).
 var AvoidHook func(*ssa.BasicBlock) bool
+
+
+// ---- interprocedural traversal support ----
+
+// InterDepth bounds how many helper frames a traversal enters.
+const InterDepth = 3
+
+// curRets: helper calls completed on the path being processed.
+var curRets map[*ssa.Call]*ssa.Return
+
+// descendable: call invokes an unexported function, method or closure of the
+// root function's package that is not already on the stack: the kind of
+// helper a function is split into. Exported functions stay atomic (rules
+// anchor in them, and guard summaries still apply).
+func descendable(call *ssa.Call, root *ssa.Function, chain []*ssa.Call) *ssa.Function {
+	if len(chain) >= InterDepth {
+		return nil
+	}
+	h := ModuleCallee(call.Common())
+	if h == nil || h.Blocks == nil || h.Synthetic != "" {
+		return nil
+	}
+	pkgOf := func(f *ssa.Function) *ssa.Package {
+		for f.Parent() != nil {
+			f = f.Parent()
+		}
+		return f.Package()
+	}
+	if pkgOf(h) == nil || pkgOf(h) != pkgOf(root) {
+		return nil
+	}
+	if h.Parent() == nil {
+		name := h.Name()
+		exported := name != "" && name[0] >= 'A' && name[0] <= 'Z'
+		if exported {
+			// a method of an unexported type is a helper too
+			if recv := h.Signature.Recv(); recv != nil {
+				t := recv.Type()
+				if pt, ok := t.(*types.Pointer); ok {
+					t = pt.Elem()
+				}
+				if nt, ok := t.(*types.Named); ok && !nt.Obj().Exported() {
+					exported = false
+				}
+			}
+		}
+		if exported {
+			return nil
+		}
+	}
+	if h == root {
+		return nil
+	}
+	for _, c := range chain {
+		if ModuleCallee(c.Common()) == h {
+			return nil
+		}
+	}
+	return h
+}
+
+func encodeFrames(chain []*ssa.Call, idx int, rets map[*ssa.Call]*ssa.Return) string {
+	if len(chain) == 0 && idx == 0 && len(rets) == 0 {
+		return ""
+	}
+	var sb strings.Builder
+	sb.WriteString("|")
+	for _, c := range chain {
+		fmt.Fprintf(&sb, "%p>", c)
+	}
+	fmt.Fprintf(&sb, "@%d", idx)
+	if len(rets) > 0 {
+		var parts []string
+		for c, r := range rets {
+			parts = append(parts, fmt.Sprintf("%p=%p", c, r))
+		}
+		sort.Strings(parts)
+		sb.WriteString("|" + strings.Join(parts, ","))
+	}
+	return sb.String()
+}
+
+// withFrames runs f with the substitutions of the call stack (and of the
+// helpers already returned from) in force, and the bound returns visible to
+// condition evaluation.
+func withFrames(chain []*ssa.Call, rets map[*ssa.Call]*ssa.Return, f func()) {
+	if len(chain) == 0 && len(rets) == 0 {
+		saved := curRets
+		curRets = nil
+		defer func() { curRets = saved }()
+		f()
+		return
+	}
+	m := map[ssa.Value]ssa.Value{}
+	// completed helpers first (in source order), so that live frames win
+	var done []*ssa.Call
+	for c := range rets {
+		done = append(done, c)
+	}
+	sort.Slice(done, func(i, j int) bool { return done[i].Pos() < done[j].Pos() })
+	for _, c := range done {
+		for k, v := range FrameSubst(c.Common(), ModuleCallee(c.Common())) {
+			m[k] = v
+		}
+	}
+	for _, c := range chain {
+		for k, v := range FrameSubst(c.Common(), ModuleCallee(c.Common())) {
+			m[k] = v
+		}
+	}
+	saved := curRets
+	curRets = rets
+	defer func() { curRets = saved }()
+	WithSubst(m, f)
+}
+
+// boundResult: v is a result of a helper call that was traversed on this
+// path; returns the operand of the return that was taken.
+func boundResult(v ssa.Value) (ssa.Value, *ssa.Return, bool) {
+	if len(curRets) == 0 {
+		return nil, nil, false
+	}
+	for i := 0; i < 4; i++ {
+		if ci, ok := v.(*ssa.ChangeInterface); ok {
+			v = ci.X
+			continue
+		}
+		break
+	}
+	var call *ssa.Call
+	idx := 0
+	switch x := v.(type) {
+	case *ssa.Extract:
+		call, _ = x.Tuple.(*ssa.Call)
+		idx = x.Index
+	case *ssa.Call:
+		call = x
+	}
+	if call == nil {
+		return nil, nil, false
+	}
+	ret, ok := curRets[call]
+	if !ok || idx >= len(ret.Results) {
+		return nil, nil, false
+	}
+	op := ReturnOperand(ret, idx)
+	// "return g(x)": the operand is itself the result of a traversed helper
+	if op != v {
+		if op2, ret2, ok2 := boundResult(op); ok2 {
+			return op2, ret2, true
+		}
+	}
+	return op, ret, true
+}
